@@ -59,6 +59,7 @@ M("C15", "ep benign: pop clock after advance", EP, """    ep->qstart_time += ep-
 
 HT = "src/hash_table.c"
 # ---- C20 ----------------------------------------------------------------------
+M("C20", "ht: identical key pointer accepted without comparison", "src/hash_table.c", """        while (entry && ((entry->len != len) || (keycmp_case(entry, key) != 0)))""", """        while (entry && entry->key != key && ((entry->len != len) || (keycmp_case(entry, key) != 0)))""", "GUARD.len-first", first=True)
 M("C20", "ht: inuse++ only for chain", HT, """        new->next = cur->next;
         cur->next = new;
     }
@@ -806,6 +807,7 @@ M("C16", "decoder: refusal not propagated", DC, """    if ((wid = dict_add_word(
 M("C16", "decoder: dict2pid gets wrong id", DC, "    dict2pid_add_word(d->d2p, wid);", "    dict2pid_add_word(d->d2p, wid - 1);", "ERRD.D6-api")
 
 # ---- C08 ----------------------------------------------------------------------
+M("C08", "noise tracker: masking peaks not cleared on the first frame", "src/fe_noise.c", "            noise_stats->peak[i] = 0.0;\n", "", "LAZY.G5-first-frame")
 M("C08", "search: beam_factor not reset (seed C08-1)", FS, "    fsgs->beam_factor = 1.0f;\n    fsgs->beam = fsgs->beam_orig;", "    fsgs->beam = fsgs->beam_orig;", "EFFECT.G2-resets")
 M("C08", "search: function-static cache (seed C08-2)", FS, "    int32 silcipid;\n    fsg_pnode_ctxt_t ctxt;\n\n    /* Reset dynamic", "    static int32 silcipid = -1;\n    fsg_pnode_ctxt_t ctxt;\n\n    /* Reset dynamic", "CENSUS.G1-static-storage")
 M("C08", "feat: cmn type latched again", "src/feat.c", "        cmn_type = CMN_LIVE;", "        fcb->cmn = cmn_type = CMN_LIVE;", "CENSUS.G2-per-utterance-fields")
@@ -1012,6 +1014,8 @@ M("C18", "cmn repr: import bound dropped", "src/cmn.c", """    while (nvals < cm
            && (cc = strchr(c, ',')) != NULL) {""", """    while ((cc = strchr(c, ',')) != NULL) {""", "REPR")
 
 # ---- C17 ----------------------------------------------------------------------
+M("C17", "acmod_free: scorer released without the NULL test", "src/acmod.c", """    if (acmod->mgau) /* FIXME: Should make this transparent */
+        ps_mgau_free(acmod->mgau);""", """    ps_mgau_free(acmod->mgau);""", "UNWIND.partial")
 M("C17", "mdef: phone truncation test only for mapped files", "src/bin_mdef.c", "    if ((m->phone + m->n_phone) > (mdef_entry_t *)data_end) {", "    if (m->alloc_mode == BIN_MDEF_ON_DISK\n        && (m->phone + m->n_phone) > (mdef_entry_t *)data_end) {", "REGION.checked")
 M("C17", "mdef: tree truncation test skipped when swapping", "src/bin_mdef.c", "    if ((m->cd_tree + m->n_cd_tree) > (cd_tree_t *)data_end) {", "    if (!s->do_swap && (m->cd_tree + m->n_cd_tree) > (cd_tree_t *)data_end) {", "REGION.checked")
 M("C17", "benign: truncation test compared in bytes", "src/bin_mdef.c", "    if ((m->phone + m->n_phone) > (mdef_entry_t *)data_end) {", "    if ((const char *)(m->phone + m->n_phone) > data_end) {", kind="benign")
